@@ -17,6 +17,9 @@ Decides (on Doc::render_console, colourless and colour builds):
                    the output being non-empty (no further condition can suppress it).
  K cursor / skip   the payload cursor advances exactly once per text token on every path; Skip::push at BlockStart(b) and Skip::pop
                    at BlockEnd(b) are paired for every block kind on every path (short help = exactly the first paragraph).
+ S bounded cut    each step of the splitter cuts a bounded piece off the remaining input (a constant prefix, up to a found separator, a
+                   computed offset): `trim*` would also eat the blank line that ends the first paragraph.
+ K doc writers    see C12 (payload and token lengths stay in step).
 Does not decide: the numeric bound on line length (byte vs char counts)."""
 import re
 from core import *
